@@ -1,5 +1,6 @@
 import Mrpro.Model.PowerIter
 import Mrpro.Lemmas.PowerIterL
+import Mrpro.Lemmas.PowerIterConvL
 /-! # C19 — operator-norm estimates are scale-free and respect the stated bounds
 
 `powerRun` is the line-by-line model of `LinearOperator.operator_norm` (generic in the vector
@@ -64,5 +65,30 @@ theorem row_bound (B' : W →ₗ[ℝ] W →ₗ[ℝ] ℝ) (hs : ∀ u v, B' u v =
 while `‖[I I] (1,1)‖² = 4 > 1²·‖(1,1)‖² = 2` -/
 theorem max_col_rule_not_bound :
     ∃ x₁ x₂ : ℝ, (x₁ + x₂) ^ 2 > (max (1 : ℝ) 1) ^ 2 * (x₁ ^ 2 + x₂ ^ 2) := ⟨1, 1, by norm_num⟩
+
+/-- closed form of the returned estimate (rule that never stops): with a budget of `n+1` iterations it is the Rayleigh quotient
+of `Gⁿ v₀`, whatever the length of `v₀` -/
+theorem estimate_closed_form (pos : ∀ v, v ≠ 0 → 0 < B v v) (v0 : V) (n : ℕ) :
+    (powerRun (realOps B) Real.sqrt (fun v => G v) (fun _ _ => false) v0 (n + 1)).1
+      = Real.sqrt (B ((G ^ n) v0) ((G ^ (n + 1)) v0) / B ((G ^ n) v0) ((G ^ n) v0)) :=
+  M.powerRun_closed_form B pos G v0 n
+
+/-- **convergence for generic start vectors**: if the start vector is a combination of B-orthonormal eigenvectors of `G = AᴴA`
+whose largest eigenvalue `λ₀` is strictly dominant and has a non-zero coefficient, the estimates tend to `√λ₀` … -/
+theorem estimates_tendsto_norm (h : Setting B B' A G) {m : ℕ} (e : Fin (m + 1) → V) (lam c : Fin (m + 1) → ℝ)
+    (heig : ∀ i, G (e i) = lam i • e i) (horth : ∀ i j, B (e i) (e j) = if i = j then 1 else 0)
+    (hdom : ∀ i, i ≠ 0 → lam i < lam 0) (v0 : V) (hv0 : v0 = ∑ i, c i • e i) (hc : c 0 ≠ 0) :
+    Filter.Tendsto (fun n => (powerRun (realOps B) Real.sqrt (fun v => G v) (fun _ _ => false) v0 n).1)
+      Filter.atTop (nhds (Real.sqrt (lam 0))) :=
+  M.estimates_tendsto_norm B B' A G h.symm h.pos h.symm' h.pos' h.gram h.inj e lam c heig horth hdom v0 hv0 hc
+
+/-- … which is the operator norm on the span of these eigenvectors: `‖A u‖² ≤ λ₀ ‖u‖²`, with equality at `e₀` -/
+theorem limit_is_norm (h : Setting B B' A G) {m : ℕ} (e : Fin (m + 1) → V) (lam : Fin (m + 1) → ℝ)
+    (heig : ∀ i, G (e i) = lam i • e i) (horth : ∀ i j, B (e i) (e j) = if i = j then 1 else 0)
+    (hdom : ∀ i, i ≠ 0 → lam i < lam 0) (d : Fin (m + 1) → ℝ) :
+    B' (A (∑ i, d i • e i)) (A (∑ i, d i • e i)) ≤ lam 0 * B (∑ i, d i • e i) (∑ i, d i • e i)
+    ∧ B' (A (e 0)) (A (e 0)) = lam 0 * B (e 0) (e 0) :=
+  ⟨M.norm_on_span B B' A G h.symm h.pos h.symm' h.pos' h.gram h.inj e lam heig horth hdom d,
+   M.norm_on_span_attained B B' A G h.symm h.pos h.symm' h.pos' h.gram h.inj e lam heig⟩
 
 end C19
